@@ -299,16 +299,32 @@ def h_collisions(E):
 def h_override(E):
     import mitxgraders as m
     from mitxgraders.exceptions import ConfigError
-    where = E.choice('where', ['variables', 'user_constants', 'user_functions', 'numbered_vars', 'none'])
+    cls = E.choice('grader', ['FormulaGrader', 'NumericalGrader', 'MatrixGrader', 'SumGrader'])
+    where = E.choice('where', ['variables', 'user_constants', 'user_functions', 'user_functions_class_specific', 'numbered_vars', 'none'])
     suppress = E.fork_bool('suppress_warnings')
-    kw = {'variables': dict(variables=['pi']), 'user_constants': dict(user_constants={'e': 2.0}), 'user_functions': dict(user_functions={'sin': abs}),
-          'numbered_vars': dict(numbered_vars=['i']), 'none': {}}[where]
+    C = getattr(m, cls)
+    # a default that exists for THIS class only: matrix functions for MatrixGrader, the infinity constant for SumGrader
+    specific_fn = {'MatrixGrader': 'trace'}.get(cls)
+    specific_const = {'SumGrader': 'infty'}.get(cls)
+    kw = {'variables': dict(variables=['pi']), 'user_constants': dict(user_constants={specific_const or 'e': 2.0}), 'user_functions': dict(user_functions={'sin': abs}),
+          'user_functions_class_specific': dict(user_functions={specific_fn or 'cos': abs}), 'numbered_vars': dict(numbered_vars=['i']), 'none': {}}[where]
+    if cls == 'NumericalGrader' and where in ('variables', 'numbered_vars'):
+        from symx import Abort
+        raise Abort()
+    base = dict(answers={'lower': '1', 'upper': '2', 'summand': 'n', 'summation_variable': 'n'}) if cls == 'SumGrader' else dict(answers='1')
     try:
-        m.FormulaGrader(answers='1', suppress_warnings=suppress, **kw)
+        C(suppress_warnings=suppress, **base, **kw)
         err = False
     except ConfigError:
         err = True
     E.check('override-of-defaults-needs-suppress_warnings', err == (where != 'none' and not suppress))
+    # names that are NOT defaults of this class can be defined freely
+    try:
+        C(user_functions={'trace': abs} if cls != 'MatrixGrader' else {'myf': abs}, user_constants={'infty2': 1.0}, **base)
+        free = True
+    except ConfigError:
+        free = False
+    E.check('non-default-names-are-free', free)
     return err
 
 
